@@ -40,7 +40,9 @@ VARIABLES comp, nr, np, nk, crow, scale, filled, stage, info, dupl, mode, outcom
 vars == <<comp, nr, np, nk, crow, scale, filled, stage, info, dupl, mode, outcome>>
 
 AllModes == {"True", "False", "None"}
-NoInfo == [c |-> "none", sub |-> "", d |-> 0, gen |-> <<>>, minsum |-> 0, mins |-> {}, complete |-> FALSE]
+\* dtag / dcls: sub-class and placement classes of a duplicate problem (set by ChooseDupl)
+NoInfo == [c |-> "none", sub |-> "", d |-> 0, gen |-> <<>>, minsum |-> 0, mins |-> {}, complete |-> FALSE,
+           dtag |-> "", dcls |-> {}]
 NoOutcome == [k |-> "none"]
 
 ------------------------------------------------------------------------------
@@ -74,15 +76,16 @@ ClassInfo(M, B, Y) ==
         ELSE IF d = 1 THEN
             LET g == RayGenOf(E) IN
             IF AllPositive(g)
-            THEN [c |-> "ray_pos", sub |-> "", d |-> 1, gen |-> g, minsum |-> VecSum(g), mins |-> {g}, complete |-> TRUE]
+            THEN [NoInfo EXCEPT !.c = "ray_pos", !.d = 1, !.gen = g, !.minsum = VecSum(g), !.mins = {g}, !.complete = TRUE]
             ELSE [NoInfo EXCEPT !.c = IF \E i \in 1..n : g[i] = 0 THEN "ray_zero" ELSE "ray_neg",
                                 !.d = 1, !.gen = g, !.complete = TRUE]
         ELSE
-            LET P == PosSolOf(E, B) IN
+            LET Be == BoxWithin(E, B, SearchCap)
+                P == PosSolOf(E, Be) IN
             IF P # {}
             THEN LET s == MinSumOver(P)
-                 IN  [c |-> "multi", sub |-> "", d |-> d, gen |-> <<>>, minsum |-> s,
-                      mins |-> {x \in P : VecSum(x) = s}, complete |-> (s - (n - 1) <= B)]
+                 IN  [NoInfo EXCEPT !.c = "multi", !.d = d, !.minsum = s,
+                                    !.mins = {x \in P : VecSum(x) = s}, !.complete = (s - (n - 1) <= Be)]
             ELSE IF HasCertOf(E, Y)
                  THEN [NoInfo EXCEPT !.c = "infeasible", !.sub = "cert", !.d = d, !.complete = TRUE]
                  ELSE [NoInfo EXCEPT !.c = "undecided", !.d = d]
@@ -164,9 +167,17 @@ KeptCols(D, pl) == {j \in Cols : j \notin DuplCols(D)}
 SubMatrix(S) == SubCols(A, SetToSortSeq(S, <))
 PlacementClasses(D) == {ClassInfo(SubMatrix(KeptCols(D, pl)), PosBoxB, CertBoxY).c : pl \in Placements(D)}
 
+\* sub-class of a duplicate problem: some placement that keeps every duplicate on one side has a
+\* positive solution ("place"), only placements that drop a duplicate have one ("drop"), none has
+DuplTag(D) ==
+    LET cls(pl) == ClassInfo(SubMatrix(KeptCols(D, pl)), PosBoxB, CertBoxY).c IN
+    IF \E pl \in [D -> {"reac", "prod"}] : SomePositive(cls(pl)) THEN "dupl-place"
+    ELSE IF \E pl \in Placements(D) : SomePositive(cls(pl)) THEN "dupl-drop"
+    ELSE "dupl-none"
+
 JudgeDupl(res, D) ==
     IF res.k = "raise" THEN
-        LET cs == PlacementClasses(D) IN
+        LET cs == info.dcls IN
         IF \E c \in cs : SomePositive(c) THEN "unexpected-raise"
         ELSE IF res.exc # "ValueError" THEN "wrong-exception"
         ELSE IF "undecided" \in cs THEN "undecided" ELSE ""
@@ -198,7 +209,7 @@ Admissible(res) == Judge(res) \in {"", "undecided", "nomin"}
 NoExp == [kind |-> "judge", sols |-> <<>>, exc |-> ""]
 Expected ==
     IF dupl # {} THEN
-        LET cs == PlacementClasses(dupl) IN
+        LET cs == info.dcls IN
         IF \A c \in cs : NoPositive(c) THEN [NoExp EXCEPT !.kind = "raise", !.exc = "ValueError"]
         ELSE NoExp
     ELSE IF info.c = "ray_pos" THEN [NoExp EXCEPT !.kind = "exact", !.sols = <<info.gen>>]
@@ -242,7 +253,8 @@ ChooseDupl(D) ==
     /\ stage = "classified" /\ dupl = {}
     /\ ValidDupl(comp, nr, D)
     /\ dupl' = D
-    /\ UNCHANGED <<comp, nr, np, nk, crow, scale, filled, stage, info, mode, outcome>>
+    /\ info' = [info EXCEPT !.dtag = DuplTag(D), !.dcls = PlacementClasses(D)]
+    /\ UNCHANGED <<comp, nr, np, nk, crow, scale, filled, stage, mode, outcome>>
 
 ChooseMode(m) ==
     /\ stage = "classified"
@@ -298,7 +310,8 @@ TypeOK ==
     /\ stage \in {"classified", "mode", "done"} => info.c \in Classes
     /\ stage \in {"mode", "done"} => mode \in AllModes
 
-Classified == stage \in {"classified", "mode", "done"} /\ dupl = {}
+\* evaluated once per problem (the state right after Classify)
+Classified == stage = "classified" /\ dupl = {}
 
 \* the null-space basis is a basis of null vectors: one per free column, primitive, and the
 \* rank is that of the transpose (two eliminations of different shape agree)
@@ -311,7 +324,7 @@ NullBasisSound == Classified =>
 \* a Stiemke certificate and a positive solution never coexist
 CertExcludesPositive == Classified =>
     LET E == Reduce(A) IN
-    /\ HasCertOf(E, CertBoxY) => PosSolOf(E, PosBoxB) = {}
+    /\ HasCertOf(E, CertBoxY) => PosSolOf(E, BoxWithin(E, PosBoxB, SearchCap)) = {}
     /\ (CheckBox > 0 /\ HasCertOf(E, CertBoxY)) => PosBox(A, CheckBox) = {}
     /\ (CheckBox > 0 /\ NoPositive(info.c)) => PosBox(A, CheckBox) = {}
 
@@ -342,8 +355,8 @@ AcceptSound == (stage = "done" /\ dupl = {}) =>
 ------------------------------------------------------------------------------
 (* case export *)
 Ready == stage = "mode"
-ClassLabel == info.c \o (IF info.sub = "" THEN "" ELSE "-" \o info.sub) \o "/" \o mode
-              \o (IF dupl = {} THEN "" ELSE "/dupl") \o (IF crow = 0 THEN "" ELSE "/q")
+ClassTag == IF dupl # {} THEN info.dtag ELSE info.c \o (IF info.sub = "" THEN "" ELSE "-" \o info.sub)
+ClassLabel == ClassTag \o "/" \o mode \o (IF crow = 0 THEN "" ELSE "/q")
               \o (IF scale = 1 THEN "" ELSE "/s")
 CaseRec ==
     [in  |-> [nr |-> nr, np |-> np, nk |-> nk, crow |-> crow, scale |-> scale, comp |-> comp,
